@@ -54,6 +54,10 @@ fn main() {
                 },
                 Profile { steps: 70, comps: vec!["A"], marks: false, events: true, sess: profile == "events", ..Default::default() },
             ),
+            "prespawn" => (
+                Cfg { ents: three(), clients: clients(2), max_size: vec![1200; 2], ..Default::default() },
+                Profile { steps: 70, comps: vec!["A", "B"], pre: true, ..Default::default() },
+            ),
             "sess" => (
                 Cfg { ents: three(), clients: clients(2), max_size: vec![1200; 2], ..Default::default() },
                 Profile { steps: 70, comps: vec!["A", "B"], sess: true, ..Default::default() },
